@@ -201,9 +201,17 @@ CMP_IMPLS = [
     Impl(F, "std::cmp::PartialOrd for BigInt", props=["C05"], fns={"partial_cmp": Fn(F, "partial_cmp", key="BigInt::partial_cmp", props=["C05"])}),
 ]
 
+from_bytes_be = Fn(F, "from_bytes_be", impl="BigInt", ret="res", props=["C05", "C19"],
+    requires=[C("length_fits", "bytes@.len() * 8 <= usize::MAX", ["C19"])],
+    ensures=[
+        C("size_is_eight_bits_per_byte", "res.size == Some((bytes@.len() * 8) as usize)", ["C05"]),
+        C("unsigned_big_endian_value", "res.val() == num_bigint::unsigned_be(bytes@)", ["C05"],
+          guard="bytes@.len() == 0 || bytes@[0] < 0x80", finding="D11"),
+    ])
+
 ALL_FNS = [new, min_size, sign, size_or_min_size, set_bit, get_bit, maybe_into, checked_into, checked_into_nonzero_usize,
            checked_add, checked_sub, checked_mul, checked_div, checked_mod, checked_shl, checked_shr,
-           slice_, checked_slice, concat]
+           slice_, checked_slice, concat, from_bytes_be]
 
 
 def items(mode, slot="util", only=None, with_ops=False, with_cmp=False):
